@@ -130,7 +130,8 @@ def segmentStep (dm : DepthMethod) (onlyPositive : Bool) (startRadius fraction :
           { s with newDistance := (radius - cpcrNorm) * sgn,
                    newAlong := (radius * cpa - radius * angTop) * sgn,
                    newDepthRef := startRadius - (sin (cpa + angTop) * bspc.x + cos (cpa + angTop) * bspc.y + center.y) }
-        else s
+        -- not in this arc's sector: ∞, as the straight branch does (fixed upstream: the values of the previous segment stayed and could be recorded for this one)
+        else { s with newDistance := Scalar.inf, newAlong := Scalar.inf, newDepthRef := Scalar.inf }
     -- closest segment so far?
     let s :=
       if s.newAlong ≥ (-1e-10 : R) ∧ s.newAlong ≤ fabs len ∧ fabs s.newDistance < fabs s.distance then
